@@ -142,7 +142,8 @@ pub fn gen_noise_line(t: &mut Tape, table: &DataTable) -> Option<String> {
         // near-misses: a complete, fully filled document followed by something else is not one JSON document
         {
             let values: Vec<V> = table.cols.iter().map(|(_, ty)| crate::props::c04::small_value(t, *ty)).collect();
-            let full = table.line(&values, t);
+            // (without the optional trailing blanks: cutting off a blank would leave a valid document)
+            let full = table.line(&values, t).trim_end().to_string();
             let junk = *t.pick(&[" # comment", ",", "}", " x", "]", " 1", "{}"]);
             options.push(format!("{}{}", full, junk));
             options.push(format!("{}{}", full, full));
